@@ -41,12 +41,6 @@ def _lin(job):
     return {"rc": r.rc, "err": r.error if r.rc else None, "prints": r.prints, "gen": r.generated,
             "distinct": r.distinct, "cmd": r.cmd}
 
-def _steps(path):
-    r = tlc.run("TraceSchedSteps", "SPECIFICATION Spec\nCHECK_DEADLOCK FALSE\n", env={"TRACE_FILE": path},
-                workers=1, timeout=3000)
-    return {"rc": r.rc, "err": (r.error or r.out[-1500:]) if r.rc else None, "prints": r.prints, "generated": r.generated,
-            "distinct": r.distinct}
-
 def fn(ck, a):
     thorough = ck.tier == "thorough"
     tmp = tempfile.mkdtemp(prefix="verif-c10-")
@@ -115,61 +109,8 @@ def fn(ck, a):
                                    "rule (spec/SchedRules.tla ConflictsRec) says the opposite: " + json.dumps(r_)[:220])
         # 2c. every recorded step of the admission protocol against Sched.tla itself (spec/TraceSchedSteps.tla):
         #     Enq / Get / Res / Ready / Wake / Done / Shutdown of every passage through a mailbox's queue
-        execs = [(seed, stats["steps"]) for seed, ws, stats, err in res if stats.get("steps")]
-        if execs:
-            nb = 14
-            batches = [execs[i::nb] for i in range(nb) if execs[i::nb]]
-            bpaths = []
-            for bi, b in enumerate(batches):
-                cmds, ev, eorig = {}, [], []
-                for ti, (seed, st) in enumerate(b):
-                    pre = f"e{ti}"
-                    for pid, c in st["cmds"].items():
-                        cmds[pre + pid] = {"m": pre + c["m"], "k": c["k"], "peek": c["peek"], "nums": c["nums"], "bad": c["bad"]}
-                    start = len(ev)
-                    if ti:
-                        ev.append({"e": "Reset"})
-                    for e in st["ev"]:
-                        e = dict(e)
-                        if e.get("p"):
-                            e["p"] = pre + e["p"]
-                        if e.get("m"):
-                            e["m"] = pre + e["m"]
-                        ev.append(e)
-                    for e in ev[start:]:
-                        e["tid"] = ti
-                    eorig.append((seed, start, len(ev)))
-                # a step the model refuses: validation goes on with the next execution
-                for (seed, a, z) in eorig:
-                    for j in range(a, z):
-                        ev[j]["nxt"] = z + 1          # 1-based index of the next execution's Reset
-                for e in ev:
-                    for k_, dv in (("p", ""), ("m", ""), ("how", ""), ("out", ""), ("hasdel", False)):
-                        e.setdefault(k_, dv)
-                bp = os.path.join(tmp, f"steps{bi}.json")
-                json.dump({"cmds": cmds, "ev": ev}, open(bp, "w"))
-                bpaths.append((bp, len(ev), eorig, ev))
-            with mp.get_context("fork").Pool(len(bpaths)) as pool:
-                souts = pool.map(_steps, [x[0] for x in bpaths])
-            nsteps = ndrift = 0
-            for (bp, n, eorig, ev), o in zip(bpaths, souts):
-                if o["rc"] != 0:
-                    raise RuntimeError(f"TraceSchedSteps failed: {o['err']}")
-                if not any(pr and pr[0] == "DONE" for pr in o["prints"]):
-                    raise RuntimeError("TraceSchedSteps did not reach the end of a batch")
-                ck.cov["states"] += o["distinct"]
-                ck.cov["transitions"] += o["generated"]
-                nsteps += o["distinct"] - 1
-                for pr in o["prints"]:
-                    if pr and pr[0] == "DRIFT":
-                        ndrift += 1
-                        seed = eorig[pr[2]][0]
-                        e = {k_: v for k_, v in ev[pr[1] - 1].items() if v not in ("", None)}
-                        ck.model_drift("SchedStep", e.get("e", "?"), f"seed {seed}: recorded step {json.dumps(e)} is not a step "
-                                       "spec/Sched.tla allows from the state the earlier recorded steps lead to")
-            ck.cov["admission_protocol_steps_validated"] = nsteps
-            ck.cov["admission_protocol_passages"] = sum(len(st["cmds"]) for _, st in execs)
-            ck.cov["admission_protocol_steps_refused_by_model"] = ndrift
+        from harness import schedsteps
+        schedsteps.validate(ck, [(seed, stats["steps"]) for seed, ws, stats, err in res if stats.get("steps")], tmp)
         # 3. TLC searches a sequential explanation of every window
         # windows are grouped by their number of sessions (a constant of the specification)
         order = sorted(range(len(wins)), key=lambda i: wins[i].get("nsess", 3))
